@@ -247,6 +247,7 @@ func runC05(w *World, r *Report) {
 	// owned one truncation ago (funds that were spent since exist twice)
 	checkpointWritesEveryAddress(w, r, "checkpoint-replaces-every-record")
 	foldOnlyAdds(w, r, "checkpoint-fold-only-adds")
+	foldsReadPartiesAndAmountOnly(w, r, "folds-read-parties-and-amount-only")
 	// a transfer that is folded into the checkpoint while its vertex stays live is counted twice: value is created
 	checkpointCountsOnlyTheWalked(w, r, "checkpoint-counts-only-the-walked")
 	// ---- 0b. the operands are worked on in place; a copy back into an operand is the undo of a failure, nothing else
@@ -620,6 +621,7 @@ func runC06(w *World, r *Report) {
 	r.NotDecided = []string{"numerical equality of the result with the reference sum", "agreement across nodes holding the same vertex set", "which tip is chosen when several exist (map iteration order)"}
 	// the balance is a walk over the ancestors: the edges of an admitted vertex are the ancestry
 	everyParentLinked(w, r, "every-looked-up-parent-is-linked")
+	foldsReadPartiesAndAmountOnly(w, r, "folds-read-parties-and-amount-only")
 	// after a truncation the balance is the checkpoint plus the walk over what stayed live: each transfer is in exactly one
 	checkpointCountsOnlyTheWalked(w, r, "checkpoint-counts-only-the-walked")
 	saveWhatIsCounted(w, r, truncateModel(w))
@@ -1441,6 +1443,25 @@ func checkpointKeyDiscipline(w *World, r *Report, rule string) {
 				kv = d.argValue(strip(cv.X))
 				continue
 			}
+			// a key helper that hands its argument back (vertexKey(hash) returns hash): the argument
+			if hc, ok := strip(kv).(*ssa.Call); ok {
+				if cal := hc.Call.StaticCallee(); cal != nil && isRepoFunc(cal) && len(cal.Blocks) > 0 {
+					if rets := returnsOf(cal); len(rets) == 1 && len(rets[0].Results) == 1 {
+						if prm, isPrm := strip(rets[0].Results[0]).(*ssa.Parameter); isPrm {
+							moved := false
+							for k, p2 := range cal.Params {
+								if p2 == prm && k < len(hc.Call.Args) {
+									kv = d.argValue(strip(hc.Call.Args[k]))
+									moved = true
+								}
+							}
+							if moved {
+								continue
+							}
+						}
+					}
+				}
+			}
 			break
 		}
 		if sl, ok := strip(kv).(*ssa.Slice); ok {
@@ -1797,4 +1818,60 @@ func canonicalAtEntry(w *World, r *Report) {
 	}
 	// the mappers copy raw values: the guard above is the only barrier (informational)
 	r.Extra["canonicality_predicates"] = preds
+}
+
+// foldsReadPartiesAndAmountOnly: what a vertex contributes to a balance is decided by who issued, who received and how much —
+// the live fold (pourFunds) and the checkpoint fold (fundsMemMap.nextVertex) read nothing else of the vertex. A fold that
+// also looks at the data, a signature, the time … counts vertices the other fold does not (or the other way round), and
+// the same ledger gives different balances before and after a truncation.
+func foldsReadPartiesAndAmountOnly(w *World, r *Report, rule string) {
+	r.rule(rule, "pourFunds and fundsMemMap.nextVertex, with everything of the repository they call outside package spice, read of accountant.Vertex only .Transaction and of transaction.Transaction only .IssuerAddress, .ReceiverAddress and .Spice: the contribution of a vertex to a balance depends on the parties and the amount alone, in both folds alike", 2)
+	for _, spec := range [][3]string{{"accountant", "", "pourFunds"}, {"accountant", "fundsMemMap", "nextVertex"}} {
+		pf := w.Func(spec[0], spec[1], spec[2])
+		if pf == nil {
+			r.bad(rule, spec[2], "-", "the fold must resolve", "not found")
+			continue
+		}
+		other := ""
+		seenFn := map[*ssa.Function]bool{}
+		var visit func(fn *ssa.Function, depth int)
+		visit = func(fn *ssa.Function, depth int) {
+			if fn == nil || seenFn[fn] || depth > 3 || len(fn.Blocks) == 0 {
+				return
+			}
+			seenFn[fn] = true
+			for _, g := range WithAnon(fn) {
+				instrsOf(g, func(in ssa.Instruction) {
+					var base ssa.Value
+					var fname string
+					switch x := in.(type) {
+					case *ssa.Field:
+						base, fname = x.X, fieldName(x.X.Type(), x.Field)
+					case *ssa.FieldAddr:
+						base, fname = x.X, fieldName(x.X.Type(), x.Field)
+					case ssa.CallInstruction:
+						if cal := x.Common().StaticCallee(); cal != nil && isRepoFunc(cal) && cal.Pkg != nil && cal.Pkg.Pkg.Name() != "spice" {
+							visit(cal, depth+1)
+						}
+						return
+					default:
+						return
+					}
+					t := deref(base.Type()).String()
+					switch {
+					case strings.HasSuffix(t, "transaction.Transaction"):
+						if fname != "IssuerAddress" && fname != "ReceiverAddress" && fname != "Spice" {
+							other += " " + shortFn(g) + " reads Transaction." + fname + " at " + lineOf(w, in) + ";"
+						}
+					case strings.HasSuffix(t, "accountant.Vertex"):
+						if fname != "Transaction" {
+							other += " " + shortFn(g) + " reads Vertex." + fname + " at " + lineOf(w, in) + ";"
+						}
+					}
+				})
+			}
+		}
+		visit(pf, 0)
+		r.check(other == "", rule, shortFn(pf), w.Pos(pf.Pos()), "the fold looks at the parties and the amount only", other)
+	}
 }
